@@ -153,14 +153,16 @@ pre_save = REG.unit(Unit(
             ("nothing-chosen-yet", "delete_id is None"),
         ]),
     },
-    props=["C09", "C07"], ghost_init=ghost_db,
+    props=["C09", "C07", "C06"], ghost_init=ghost_db,
     canaries=[("never-deletes", "ghost('n_deletes') == 0")],
 ))
 pre_save.ghost_havoc = lambda sx, body, st: None
 pre_save.local_types = {"delete_id": V.Opt(V.Bytes)}
 pre_save.post_locals = {"d_tag": V.Str}
 pre_save.obligation_props = [("sql:statement-inside-open-transaction", ["C07"]), ("post:stays-in-transaction", ["C07"]),
-                             ("post:", ["C09"]), ("inv:", ["C09"]), ("exc:", ["C09", "C07"])]
+                             # C06 ("resubmitting a stored event changes nothing") rests on: only STRICTLY older rows are superseded
+                             ("post:supersedes-only-older-same-address", ["C09", "C06"]), ("post:regular-events-touch-nothing", ["C09", "C06"]),
+                             ("post:", ["C09"]), ("inv:", ["C09"]), ("exc:", ["C09", "C07"]), ("call:", ["C07", "C09"])]
 
 
 # ---- delete_event: its own transaction -----------------------------------------------------------------
